@@ -49,7 +49,39 @@ def desugar(loc, relfile, fn_paths, rules):
                     records.append({"fn": fp, "rule": "D10 parameter type fn(&T) -> usize  =>  MappingFn<T> (stub type)",
                                     "original": src[a:b], "rewritten": new})
             for v in it.get("vd", []):
+                if v["rule"] == "D16" and "D17" in rules and "D16" not in rules:
+                    # D17: the same syntactic candidate, usize bounds
+                    pat = src[v["pat"][0]:v["pat"][1]]
+                    lo = src[v["lo"][0]:v["lo"][1]]
+                    hi = src[v["hi"][0]:v["hi"][1]]
+                    new = (f"let mut pv_{pat}: u128 = ({lo}) as u128; let pv_{pat}_hi: u128 = ({hi}) as u128; while pv_{pat} <= pv_{pat}_hi {{ let {pat}: usize = pv_{pat} as usize; pv_{pat} += 1;")
+                    rewrites.append((v["call"][0], v["call"][1], new))
+                    records.append({"fn": fp, "rule": "D17 for x in LO..=HI { B } (usize bounds)  =>  let mut k: u128 = LO; while k <= HI { let x = k as usize; k += 1; B }   (the counter is a u128 so that HI = usize::MAX does not overflow)",
+                                    "original": src[v["call"][0]:v["call"][1]], "rewritten": new})
+                    continue
                 if v["rule"] not in rules:
+                    continue
+                if v["rule"] == "D18":
+                    recv = src[v["recv"][0]:v["recv"][1]]
+                    lo = src[v["lo"][0]:v["lo"][1]]
+                    hi = src[v["hi"][0]:v["hi"][1]]
+                    arg = src[v["arg"][0]:v["arg"][1]]
+                    new = f"{recv}.pv_splice({lo}, {hi}, {arg});"
+                    rewrites.append((v["call"][0], v["call"][1], new))
+                    records.append({"fn": fp, "rule": "D18 let _ = V.splice(LO..HI, ARG);  =>  V.pv_splice(LO, HI, ARG);   (spec/std_vec_splice.rs: the documented effect of Vec::splice whose iterator is dropped at once; panics unless LO <= HI <= len)",
+                                    "original": src[v["call"][0]:v["call"][1]], "rewritten": new})
+                    continue
+                if v["rule"] == "D19":
+                    recv = src[v["recv"][0]:v["recv"][1]]
+                    idx = src[v["idx"][0]:v["idx"][1]]
+                    pat = src[v["pat"][0]:v["pat"][1]]
+                    take = src[v["take"][0]:v["take"][1]]
+                    skip = src[v["skip"][0]:v["skip"][1]]
+                    new = (f"let pv_{idx}_take: usize = {take}; let pv_{idx}_end: usize = if pv_{idx}_take < {recv}.len() {{ pv_{idx}_take }} else {{ {recv}.len() }}; "
+                           f"let mut pv_{idx}: usize = {skip}; while pv_{idx} < pv_{idx}_end {{ let {idx} = pv_{idx}; let {pat} = &{recv}[pv_{idx}]; pv_{idx} += 1;")
+                    rewrites.append((v["call"][0], v["call"][1], new))
+                    records.append({"fn": fp, "rule": "D19 for (i, p) in X.iter().enumerate().take(A).skip(B) { B }  =>  let e = min(A, X.len()); let mut k = B; while k < e { let i = k; let p = &X[k]; k += 1; B }",
+                                    "original": src[v["call"][0]:v["call"][1]], "rewritten": new})
                     continue
                 if v["rule"] == "D7":
                     recv = src[v["recv"][0]:v["recv"][1]]
@@ -312,6 +344,7 @@ class FnSpec:
         self.body_start = []
         self.body_end = []
         self.loops = {}      # k -> lines
+        self.loop_ends = {}  # k -> lines inserted before the closing brace of loop k
         self.anchored = []   # (mode, n, text, lines)
         self.used = False
 
@@ -363,6 +396,9 @@ def parse_vspec(path):
             elif d == "loop":
                 k = int(arg)
                 target = cur.loops.setdefault(k, [])
+            elif d == "loop_end":
+                k = int(arg)
+                target = cur.loop_ends.setdefault(k, [])
             elif d in ("before", "after"):
                 m = re.match(r"(\d+)\s+`(.*)`\s*$", arg)
                 if not m:
@@ -435,6 +471,11 @@ class ExtractedFn:
                 if k < 1 or k > len(loops):
                     raise Undecided(f"lost anchor: {key} has {len(loops)} loops, contract refers to loop {k}")
                 ins.append((loops[k - 1][1], 0, "\n" + _ghost(lines) + "\n"))
+            for k, lines in spec.loop_ends.items():
+                loops = it.get("loops", [])
+                if k < 1 or k > len(loops):
+                    raise Undecided(f"lost anchor: {key} has {len(loops)} loops, contract refers to the end of loop {k}")
+                ins.append((loops[k - 1][2] - 1, 0, "\n" + _ghost(lines) + "\n"))
             for mode, n, text, lines in spec.anchored:
                 pos = -1
                 search_from = self.start
@@ -596,7 +637,13 @@ class Unit:
                 s = mit["item_start"]
                 while src[s] in " \t\r\n":
                     s += 1
-                slots[iid] = [("text", src[s:mit["end"]] + "\n")]
+                text = src[s:mit["end"]]
+                for a, b in item.get("rewrite", []):
+                    if a not in text:
+                        raise Undecided(f"lost anchor: raw item rewrite source `{a}` not found in {item['path']}")
+                    text = text.replace(a, b)
+                    deviations.append(f"{iid}: raw item rewrite `{a}` -> `{b}` (visibility only)")
+                slots[iid] = [("text", text + "\n")]
             else:
                 mit = find_item(loc, relfile, item["path"])
                 ef = ExtractedFn(relfile, loc, mit, iid, specs.get(iid))
